@@ -266,6 +266,20 @@ ROUND11 = {
  "C12": "E12 NILSAFE: forward must-non-nil dataflow per function over the fields the module itself treats as optional (nil tests / nil stores) and over maps not made at every creation, with entry facts from all call sites and closure creations (greatest fixpoint), kill on calls that may clear, error-checked results, companion fields and correlated merges",
  "C16": "E12 nil-safety on every peer-driven function; per-connection channels not shared (from C10); accept loops park on nothing (no channel operation, WaitGroup or Cond wait directly or below any call they make)",
 }
+# rule families added after seeded round 12 (DESIGN 8.5, round 12)
+ROUND12 = {
+ "C07": "who may arm the survey timer (timer table, from C10)",
+ "C08": "send contract of the transports and the core (from C17)",
+ "C09": "send contract of the core and the transports (from C17)",
+ "C10": "E11 closer-leak (from C12; a resource stored in an object the function has just made is followed through that object); accept loops perform no handshake step (from C16)",
+ "C11": "no wait under a lock (E4, from C12); one deadline per blocked call (from C18)",
+ "C12": "E11: a resource stored into a fresh local object is owned by that object until the object is returned or published",
+ "C14": "std-config-fields: net.Dialer / websocket.Dialer fields from a closed list (from C15)",
+ "C15": "std-config-fields: stores into net.Dialer, net.ListenConfig, tls.Config, http.Server, gorilla Dialer/Upgrader fields are from a closed list",
+ "C18": "queue room for re-sends under the lock (E10c, from C19); macat durations and the unset-deadline sentinel (from C20)",
+ "C19": "fail-no-peers channel replaced where closed (from C18)",
+ "C20": "a timeout field that starts at the negative 'not given' sentinel reaches SetOption only under a >= 0 test (every way into the call, through merges)",
+}
 for k, (t, x) in EXTRA.items():
     tech, text, note, ref = CLAIMED[k]
     imp = IMPORTS.get(k)
@@ -277,6 +291,8 @@ for k, (t, x) in EXTRA.items():
         r8 = (r8 + "; " if r8 else "") + "after round 10: " + ROUND10[k]
     if ROUND11.get(k):
         r8 = (r8 + "; " if r8 else "") + "after round 11: " + ROUND11[k]
+    if ROUND12.get(k):
+        r8 = (r8 + "; " if r8 else "") + "after round 12: " + ROUND12[k]
     CLAIMED[k] = (tech + t + ("; shared mechanisms decided where they are anchored and imported: " + imp if imp else "") + ("; added after seeded rounds 6-7: " + r67 if r67 else "") + ("; added after seeded round 8: " + r8 if r8 else ""), text + x, note, ref)
 
 NOT_YET = "check not built yet (work in progress; planned static rules in DESIGN.md section 4)"
